@@ -338,6 +338,7 @@ func (b *BloomSearchEngine) Query(ctx context.Context, query *Query) (*Results, 
 						blockMetadata:  blocks[survivor.index],
 						filterDuration: survivor.filterDuration,
 					}
+					verifPoint("query.dispatch")
 					handles.retain(job.filePointer)
 					if err := sendWithContext(r.ctx, blockJobs, blockJob); err != nil {
 						handles.release(job.filePointer)
@@ -375,6 +376,7 @@ func (b *BloomSearchEngine) Query(ctx context.Context, query *Query) (*Results, 
 
 		workersSpawned := 0
 		for maybeFile, err := range b.metaStore.GetMaybeFilesForQuery(r.ctx, query.Prefilter) {
+			verifPoint("query.fileStage.next")
 			if err != nil {
 				// Stop pulling; blocks already dispatched still finish, and
 				// the error surfaces from Results.Err.
@@ -438,6 +440,7 @@ func (b *BloomSearchEngine) Query(ctx context.Context, query *Query) (*Results, 
 	go func() {
 		fileWorkers.Wait()
 		close(blockJobs)
+		verifPoint("query.teardown")
 		blockWorkers.Wait()
 		handles.closeAll()
 		r.markWorkersDone()
@@ -718,6 +721,7 @@ func (b *BloomSearchEngine) processDataBlock(
 	// row view has been dropped (matching parses transient views; matched rows
 	// are materialized as independent copies before batching).
 	defer releaseRowData()
+	verifPoint("query.block.loaded")
 
 	// Matched rows are delivered in batches; the deferred flush covers every
 	// scan exit (end of data, block error, cancellation) so rows matched
